@@ -286,7 +286,8 @@ class _EulerBernoulli(_GroupElem):
         lines = np.repeat(range(N), N)
         columns = np.array(list(range(N)) * N)
         for n in range(dof_n * nPe // 3):
-            P_e_pg[:, 0, lines + n * N, columns + n * N] = P[:, lines, columns]
+            # u_local = Pᵀ • u_global (the columns of P are the beam axes in global coordinates)
+            P_e_pg[:, 0, lines + n * N, columns + n * N] = P[:, columns, lines]
 
         return P_e_pg
 
